@@ -16,7 +16,9 @@ import (
 // ---- 4. residues and gaps that are unique in their column (upper-case input) ---------------------
 
 type uniqueCase struct {
-	Ali gen.Ali `json:"ali"`
+	Ali gen.Ali  `json:"ali"`
+	F   *formula `json:"formula,omitempty"`         // a tall or long alignment given by formula
+	PF  *formula `json:"profile_formula,omitempty"` // its profile alignment, by formula
 	// Profile: rows of a second alignment of the same length the profile is counted from; nil = no profile
 	Profile []string `json:"profile"`
 	// ByHand: build the profile with SetHeader/AppendCount from the harness's own counts instead of
@@ -70,7 +72,14 @@ func profCount(rows []string, ch byte, j int) int {
 }
 
 func checkUnique(c uniqueCase) (o pbt.Outcome, err error) {
-	a := c.Ali
+	a := resolve(c.Ali, c.F)
+	sizeClass(&o, c.F)
+	if c.PF != nil {
+		c.Profile = nil
+		for _, r := range c.PF.expand().Rows {
+			c.Profile = append(c.Profile, r.Seq)
+		}
+	}
 	al := gen.MustBuild(a)
 	n, l := len(a.Rows), a.Length()
 	w := wildOf(a.Alphabet)
@@ -237,6 +246,22 @@ func sprinkle(t *rapid.T, a *gen.Ali, ext *string) {
 
 func TestUnique(t *testing.T) {
 	pbt.Run(t, func(t *rapid.T) uniqueCase {
+		if f := genMaybeLarge(t, false); f != nil {
+			c := uniqueCase{Ali: gen.Ali{Alphabet: f.Alphabet}, F: f}
+			if rapid.Bool().Draw(t, "fprofile") {
+				// a profile of the same length resembling the alignment: fewer rows (tall) or the
+				// columns shifted by one (long)
+				pf := *f
+				if f.Kind == "tall" {
+					pf.Rows = rapid.IntRange(1, 12).Draw(t, "pfrows")
+				} else {
+					pf.Cols = append(append([]fcol{}, f.Cols[1:]...), f.Cols[0])
+				}
+				c.PF = &pf
+				c.ByHand = rapid.Bool().Draw(t, "byhand")
+			}
+			return c
+		}
 		a, _ := genAli(t, false, 1)
 		sprinkle(t, &a, nil)
 		c := uniqueCase{Ali: a}
@@ -277,7 +302,8 @@ func compatible(x, y byte) bool {
 }
 
 type refCase struct {
-	Ali gen.Ali `json:"ali"`
+	Ali gen.Ali  `json:"ali"`
+	F   *formula `json:"formula,omitempty"`
 	// Ref: index of the reference row, or -1: the external sequence Ext
 	Ref int    `json:"ref"`
 	Ext string `json:"ext"`
@@ -442,7 +468,8 @@ func alphaCode(alpha string) int {
 }
 
 func checkReference(c refCase) (o pbt.Outcome, err error) {
-	a := c.Ali
+	a := resolve(c.Ali, c.F)
+	sizeClass(&o, c.F)
 	al := gen.MustBuild(a)
 	n, l := len(a.Rows), a.Length()
 	ref := c.Ext
@@ -567,6 +594,15 @@ func checkReference(c refCase) (o pbt.Outcome, err error) {
 }
 
 func genRefCase(t *rapid.T) refCase {
+	if f := genMaybeLarge(t, false); f != nil {
+		c := refCase{Ali: gen.Ali{Alphabet: f.Alphabet}, F: f}
+		if rapid.Bool().Draw(t, "freffirst") {
+			c.Ref = 0
+		} else {
+			c.Ref = rapid.IntRange(0, f.Rows-1).Draw(t, "frefrow")
+		}
+		return c
+	}
 	a, _ := genAli(t, false, 1)
 	c := refCase{Ali: a}
 	chars := ntIUPAC
